@@ -234,6 +234,51 @@ def probe():
         a.close(); b.close()
     return bad
 
+def reentry_probe():
+    # the same has() patcher entered twice (recursion; one has() object on two functions, one calling the other); the inner call ends
+    # with an ordinary exception that the outer one catches: the outer body is still guarded afterwards
+    import sys
+    out = {}
+    orig = (sys.stdout, sys.stderr, socket.socket)
+    def outcome(run):
+        try: return run()
+        except deal.SilentContractError: return "SilentContractError"
+        except deal.OfflineContractError: return "OfflineContractError"
+        except BaseException as e: return "exc:" + type(e).__name__
+    @deal.has()
+    def rec(n, effect):
+        if n == 0: raise ValueError("inner")
+        try: rec(n - 1, effect)
+        except ValueError: pass
+        effect()
+        return "done"
+    shared = deal.has()
+    @shared
+    def inner(): raise KeyError("inner")
+    @shared
+    def outer(effect):
+        try: inner()
+        except KeyError: pass
+        effect()
+        return "done"
+    @deal.has()
+    def grec(n, effect):
+        if n == 0: raise ValueError("inner")
+        try: list(grec(n - 1, effect))
+        except ValueError: pass
+        effect()
+        yield "done"
+    effects = {"stdout": (lambda: print("", end=""), "SilentContractError"), "stderr": (lambda: sys.stderr.write(""), "SilentContractError"),
+               "socket": (lambda: socket.socket().close(), "OfflineContractError")}
+    for name, (eff, want) in effects.items():
+        for label, run in (("recursion depth 1", lambda: rec(1, eff)), ("recursion depth 2", lambda: rec(2, eff)), ("shared has object", lambda: outer(eff)),
+                           ("recursive generator", lambda: list(grec(1, eff)))):
+            got = outcome(run)
+            restored = (sys.stdout, sys.stderr, socket.socket) == orig
+            sys.stdout, sys.stderr, socket.socket = orig
+            out[f"{label}/{name}"] = True if (got == want and restored) else [got, want, restored]
+    return out
+
 def kinds_probe():
     # every kind of function body: plain, generator, coroutine, asynchronous generator. The undeclared print inside the body is blocked,
     # the declared one goes through
@@ -268,6 +313,16 @@ def kinds_probe():
 """
 
 
+def reentry_part(ctx, fr):
+    r = impl.run_impl('pyexec.py', {'src': WAYS_SRC, 'calls': [['reentry_probe', []]]})[0]
+    fr.evaluations += 12; fr.add_nontrivial({'reentry_probe': 1}); fr.samples.append({'family': 're-entered has() patcher with a failing inner call', 'result': r})
+    bad = {k: v for k, v in (r.items() if isinstance(r, dict) and 'error' not in r else [('error', r)]) if v is not True}
+    if bad:
+        k0 = sorted(bad)[0]
+        fr.violations.append({'scenario': {'family': 'reentry', 'case': k0}, 'impl': bad, 'signature': None,
+                              'what': f'after an inner call of the same has() patcher ended with an exception the outer body is no longer guarded (or the streams are not restored): {k0}: [observed, expected, restored] = {bad[k0]}'})
+
+
 def kinds_part(ctx, fr):
     r = impl.run_impl('pyexec.py', {'src': WAYS_SRC, 'calls': [['kinds_probe', []]]})[0]
     fr.evaluations += 8; fr.samples.append({'family': 'kinds of function bodies under has()', 'result': r})
@@ -297,5 +352,6 @@ def run(ctx, fr, model_available=True):
     lint_part(ctx, fr)
     ways_part(ctx, fr)
     kinds_part(ctx, fr)
+    reentry_part(ctx, fr)
 def search(ctx, fr, model_available=True): return base_scn.search(_me, ctx, fr, model_available)
 classify = base_scn.classify
